@@ -444,15 +444,15 @@ func min(a, b int) int {
 
 func init() {
 	vf.Register(
-		vf.Sub[Case]{Name: "api", Quick: 8000, Thorough: 100000, Gen: genAPI, Check: checkAPI, Floor: 0.25,
+		vf.Sub[Case]{Name: "api", Quick: 8000, Thorough: 50000, Gen: genAPI, Check: checkAPI, Floor: 0.25,
 			Rule: "maxsat.New(...).Solve(): 1..10 constraints over <=6 named variables, hard/soft split, weights 1..9; clauses, cardinality constraints (Coeffs nil, degree -1..len+1) and PB constraints with positive coefficients (degree 0..sum+1); the constraint values (coefficient slices carved out of one array) are given to maxsat.New 3 times (map-ordered cost function) and must stay untouched; oracle = brute force; non-trivial = >=1 hard constraint and >=1 soft constraint violated at the optimum"},
-		vf.Sub[Case]{Name: "hard-pb-systems", Quick: 8000, Thorough: 100000, Gen: genHardPB, Check: checkAPI, Floor: 0.1,
+		vf.Sub[Case]{Name: "hard-pb-systems", Quick: 8000, Thorough: 50000, Gen: genHardPB, Check: checkAPI, Floor: 0.1,
 			Rule: "maxsat.New(...).Solve(): 3..8 mostly hard constraints over 3..7 named variables in a drawn order - clauses, cardinality constraints, and weighted constraints with one dominant coefficient and a degree that the other terms cannot reach (a literal is forced while parsing, the rest of the constraint stays) - plus 0..3 soft unit clauses; same oracle as api"},
 		vf.Sub[Case]{Name: "many-soft-api", Quick: 1000, Thorough: 4000, Gen: genManySoft("api"), Check: checkAPI, Floor: 0.5,
 			Rule: "maxsat.New(...).Solve(): 34..46 soft clauses of 1..3 literals with pairwise different weights over 8..12 variables (the bound added after each model is a weighted constraint over more than 32 literals), 1..5 hard clauses, in two cases out of three a hard unit clause contradicting the heaviest soft clause; same oracle as api"},
 		vf.Sub[Case]{Name: "many-soft-wcnf", Quick: 1000, Thorough: 4000, Gen: genManySoft("wcnf"), Check: checkWCNF, Floor: 0.5,
 			Rule: "the same instances as WCNF text; same oracle as wcnf"},
-		vf.Sub[Case]{Name: "wcnf", Quick: 8000, Thorough: 100000, Gen: genWCNF, Check: checkWCNF, Floor: 0.18, Journal: true,
+		vf.Sub[Case]{Name: "wcnf", Quick: 8000, Thorough: 50000, Gen: genWCNF, Check: checkWCNF, Floor: 0.18, Journal: true,
 			Rule: "ParseWCNF of a generated text (declared variables >= highest used, with/without top weight, soft weights < top, empty clauses, duplicate literals), Optimal(nil) and Optimal(chan) each on a fresh solver; oracle = brute force over the declared variables; non-trivial as above"},
 	)
 }
